@@ -5,6 +5,7 @@ CONSTANTS
   RxDeltas = {0, 11, 61}
   TsVals = {0, 20, 70}
   Kinds = {"norm", "ctrl"}
+  IdxDeltas = {1}
   FixMerged = TRUE
 
 INVARIANTS EmitInv NoPanic C05 C05Safe C06 C07
